@@ -2,6 +2,7 @@
 errors (DESIGN.md §5, C17)."""
 import vlib
 from checks import codec_common as cc
+from checks import codec_laws
 
 THEOREMS = ["base36_roundtrip", "base36_rejects_large", "C17_roundtrip", "C17_roundtrip_nonnil", "C17_roundtrip_refuted",
             "C17_total", "C17_panic_only_unchecked", "C17_reencodes", "C17_pinned"]
@@ -64,6 +65,7 @@ def run(chk):
     cc.stage(chk, "harness build", t0)
     t0 = time.time()
     c.library(2000 if thorough else 400)
+    codec_laws.stage(c, 3000 if thorough else 300)   # json_lib_ok on the real libraries; Coq instance vs real (A8)
     cc.stage(chk, "library cases", t0)
     t0 = time.time()
     n, coq_n = (40000, 30000) if thorough else (5000, 1500)
